@@ -119,3 +119,97 @@ def replay13(ck, binpath, path):
             vv = json.loads(l)
             if "signature" in vv:
                 ck.violation(vv["signature"], "%s in `%s`" % (vv["what"], vv["text"].strip()), {"text": vv["text"], "prog": vv["prog"], "what": vv["what"]})
+
+
+# ------------------------------------------------------------------------------------------------ C14
+
+CORPUS14 = os.path.join(VERIF, "corpus", "C14")
+
+TRUSTED14 = TRUSTED13 + [
+    "C14: hand-written model coq/theories/C14/Model.v of FileReference::decl_references, search_decl_references (local branch) and "
+    "rename_decl_references (local branch), tied by the correspondence check (per local declaration: the cells of the real reference "
+    "index in order, the edits of the real rename handler, and the edited text = the printed text of alpha); the ordinal resolver of "
+    "the alpha-renaming theorem is proved equal to the positional resolver of C13 (ord_resolver_agrees)",
+    "hook emmylua_ls::verif_references / verif_rename (cfg-gated re-exports of handlers::references::references and handlers::rename::rename)",
+]
+
+
+def case14_to_coq(c):
+    decls = []
+    for d in c["decls"]:
+        edits = d["rename"]
+        if edits is None:
+            raise ValueError("rename returned nothing at the declaration at %d" % d["pos"])
+        es = ["(%d, %d, %d)" % (e[0], e[1], name_index(e[2])) for e in edits]
+        decls.append("{| o_pos := %d; o_name := %d; o_cells := %s; o_edits := %s |}" % (
+            d["pos"], d["name"], coq_list([str(x) for x in d["cells"]]), coq_list(es)))
+    return "{| c_prog := %s; c_text := %s; c_fresh := %d; c_decls := %s |}" % (
+        c["coq"], coq_text(c["text"]), c["fresh"], coq_list(decls))
+
+
+def correspondence14(ck, binpath, n):
+    rc, out, err = ck.run_bin(binpath, ["corr", "--seed", ck.seed, "--n", n, "--corpus", CORPUS14])
+    if rc != 0:
+        ck.tie_broken("harness c14 corr failed", err[-2000:])
+        return
+    cases = [json.loads(l) for l in out.splitlines() if l.strip()]
+    terms = []
+    kept = []
+    for c in cases:
+        if c.get("errors", 0):
+            ck.tie_broken("the printed program does not parse without errors: %r" % c["text"], json.dumps(c["prog"])[:2000])
+            continue
+        try:
+            terms.append(case14_to_coq(c))
+            kept.append(c)
+        except ValueError as ex:
+            ck.tie_broken("observation outside the model's vocabulary (%s) for %r" % (ex, c["text"]), json.dumps(c)[:3000])
+    failing = ck.coq_failing("corr14", terms, ["EV.C13.Model", "EV.C14.Model", "EV.C14.Corr"], per_shard=40)
+    ndecl = 0
+    for c in kept:
+        ndecl += len(c["decls"])
+        ck.count_case(("corr14", c["text"]), nontrivial=any(d["cells"] for d in c["decls"]))
+    ck.cov["distribution"]["corr_programs"] = len(kept)
+    ck.cov["distribution"]["corr_local_declarations"] = ndecl
+    if failing is None:
+        return
+    for i in failing[:5]:
+        c = kept[i]
+        ck.tie_broken("model/implementation disagreement (reference cells, rename edits, edited text or ordinal resolver) on `%s`" % c["text"].strip(),
+                      json.dumps({"prog": c["prog"], "text": c["text"], "decls": c["decls"]})[:6000])
+    if kept:
+        c = kept[min(len(kept) - 1, 12)]
+        ck.sample({"kind": "correspondence case", "text": c["text"], "declarations": c["decls"][:4]})
+
+
+def search14(ck, binpath, n):
+    rc, out, err = ck.run_bin(binpath, ["search", "--seed", ck.seed, "--n", n, "--corpus", CORPUS14], timeout=3000)
+    if rc != 0:
+        ck.tie_broken("harness c14 search failed", err[-2000:])
+        return
+    for l in out.splitlines():
+        if not l.strip():
+            continue
+        v = json.loads(l)
+        if "summary" in v:
+            ck.cov["distribution"]["search"] = v["summary"]
+            ck.add_measured(v["summary"]["request_points"], v["summary"]["distinct_nontrivial"])
+            continue
+        if "harness_error" in v:
+            ck.tie_broken("harness: " + v["harness_error"][:300], json.dumps(v)[:3000])
+            continue
+        ck.violation(v["signature"], v["what"], {"text": v["text"], "prog": v["prog"], "what": v["what"]})
+        ck.sample({"kind": "violation", "text": v["text"], "what": v["what"]})
+
+
+def replay14(ck, binpath, path):
+    data = json.load(open(path))
+    for v in data.get("violations", []):
+        case = v.get("case", {})
+        if not case.get("prog"):
+            continue
+        rc, out, err = ck.run_bin(binpath, ["one", "--case-json", json.dumps({"prog": case["prog"]})])
+        for l in out.splitlines()[1:]:
+            vv = json.loads(l)
+            if "signature" in vv:
+                ck.violation(vv["signature"], vv["what"], {"text": vv["text"], "prog": vv["prog"], "what": vv["what"]})
